@@ -19,7 +19,7 @@
 (*   filter headers are named by the same numbers                          *)
 (*   NF = nothing readable there, G = something unknown, ERR = call failed *)
 (*                                                                         *)
-(* cfg = [s, n, bs, hB, hF, x, kind, fy, fk, ck, cx]                       *)
+(* cfg = [s, n, bs, hB, hF, x, kind, fy, fk, ck, cx, rsrc, rk, rkind]      *)
 (*   s, n   start height and number of headers of both files               *)
 (*   bs     WriteBatchSizePerRegion                                        *)
 (*   hB,hF  tip heights of the block / filter header store before          *)
@@ -35,6 +35,10 @@
 (*          network whose value is the reference filter header ck (NF: no  *)
 (*          checkpoint)                                                    *)
 (*   cx     1: the context handed to Import is already cancelled           *)
+(*   rsrc   "B" / "F": the block / filter header SOURCE becomes unreadable *)
+(*          from the header of height rk on once the write pass has begun  *)
+(*          (validation read it fine); rkind "eof" = reads come back short *)
+(*          (io.EOF), "io" = another I/O error.  "none": readable          *)
 (* obs = [up, B |-> [tip |-> <<id,height>>, byH, hh], F |-> [tip, byH]]    *)
 (*   byH[p] = id read by FetchHeaderByHeight(p-1); hh[p] = HeightFromHash  *)
 (*   of that header.                                                       *)
